@@ -1,4 +1,5 @@
 import WhVerif.Lemmas.C01Dp
+import WhVerif.Lemmas.C01Flat
 /-!
 # C01 — property theorems (about the model `WhVerif.C01` of `PedigreeDPTable`)
 
@@ -32,6 +33,14 @@ theorem dp_optimal_spelled (I : Inst) (h : WF I) :
     · exact Or.inl e
     · have := (mem_solutions I (β, τ)).mp hx
       exact Or.inr ⟨β, τ, this.1, this.2.1, this.2.2, e⟩
+
+/-- the objective minimised column by column (`optCost`) is the minimum over ALL triples (bipartition,
+transmission vector, explicit allele assignment per column) of `solutionCost` — the property's wording -/
+theorem objective_flattened (I : Inst) : optCost3 I = optCost I := optCost3_eq_optCost I
+
+/-- **Optimality against the fully explicit objective** -/
+theorem dp_optimal_explicit (I : Inst) (h : WF I) : dpCost I = optCost3 I := by
+  rw [objective_flattened, dp_optimal I h]
 
 /-- infeasibility (the "Mendelian conflict" exception) means that NO bipartition / transmission vector has an
 admissible allele assignment in every column -/
